@@ -23,7 +23,8 @@ try:
 except ImportError:  # pragma: no cover
     XMLSyntaxError = Exception
 
-TOKENS = ["&", "<", ">", '"', "'", "a", ";", "&amp;", "&lt;", "&#65;", "&#x41;", "]]>", "<!--", "&quot;"]
+TOKENS_ALL = ["&", "<", ">", '"', "'", "a", ";", "&amp;", "&lt;", "&#65;", "&#x41;", "]]>", "<!--", "&quot;"]
+TOKENS = TOKENS_ALL if THOROUGH else ["&", "<", '"', "a", "&amp;", "&#65;", "]]>"]
 ALPH = "&<>\"']a;"
 MAXLEN = 3 if THOROUGH else 2
 NTOK = 2 if THOROUGH else 1
@@ -88,8 +89,8 @@ def _as_data(build, read, s):
 
 
 LAST_DETAIL = None
-_TOKBOUND = ("strings of 1..NTOK tokens (1 quick / 2 thorough) from [&, <, >, \", ', a, ;, &amp;, &lt;, &#65;, &#x41;, ]]>, <!--, &quot;] "
-             "(token indices and the chart type are choice variables: exhaustive)")
+_TOKBOUND = ("quick: one token from [&, <, \", a, &amp;, &#65;, ]]>]; thorough: strings of 1..2 tokens from [&, <, >, \", ', a, ;, &amp;, &lt;, "
+             "&#65;, &#x41;, ]]>, <!--, &quot;] (token indices and the chart type are choice variables: exhaustive)")
 
 
 @cond(timeout=1500, encodes=["pptx.chart.xmlwriter:ChartXmlWriter", "pptx.chart.xmlwriter:_BaseSeriesXmlWriter.name",
@@ -243,18 +244,21 @@ def _rels_of(part):
                             "pptx.opc.package:Part.relate_to", "pptx.opc.package:_Relationships.get_or_add_ext_rel",
                             "pptx.opc.package:_Relationships.xml", "pptx.opc.package:Part.target_ref", "pptx.opc.oxml:CT_Relationship.new",
                             "pptx.opc.oxml:CT_Relationships.add_rel"],
-      bound="every URL s with 1 <= len(s) <= MAXLEN (2 quick / 3 thorough) over {&, <, >, \", ', ], a, ;}; sink: hyperlink address of a run "
-            "(where=0), of a shape click action (1), of a second run given the same or another URL (2); read back through the API and "
-            "through the serialised relationship item (xml.etree)")
-def hyperlink_address(s: str, where: int, same: bool) -> bool:
+      bound="URL = 1..2 tokens from the thorough token list (14 tokens; indices are choice variables: exhaustive over 210 strings; a fully "
+            "symbolic str through the relationship serialiser was inconclusive after 900 s); sink: hyperlink address of a run (where=0), "
+            "of a shape click action (1), of a second run given the same or another URL (2); read back through the API and through the "
+            "serialised relationship item (xml.etree)")
+def hyperlink_address(n: int, i0: int, i1: int, where: int, same: bool) -> bool:
     """
-    pre: 1 <= len(s) <= MAXLEN and all(c in ALPH for c in s) and 0 <= where < 3
+    pre: 1 <= n <= 2 and 0 <= i0 < len(TOKENS_ALL) and 0 <= i1 < len(TOKENS_ALL) and (n > 1 or i1 == 0)
+    pre: 0 <= where < 3 and (where == 2 or not same)
     post: _
     """
+    s = "".join([TOKENS_ALL[i0], TOKENS_ALL[i1]][:n])
     part = _slide_part()
     shapes = SlideShapes(part._element.cSld.spTree, _Owner(part))
     sh = shapes.add_shape(MSO_SHAPE.RECTANGLE, 0, 0, 10, 10)
-    n = _count(part._element)
+    n0 = _count(part._element)
     if where == 1:
         sh.click_action.hyperlink.address = s
         got = sh.click_action.hyperlink.address
@@ -264,7 +268,7 @@ def hyperlink_address(s: str, where: int, same: bool) -> bool:
         p = sh.text_frame.paragraphs[0]
         r = p.add_run()
         r.font
-        n = _count(part._element)
+        n0 = _count(part._element)
         added = 1
         if where == 2:
             r0 = p.add_run()
@@ -274,8 +278,8 @@ def hyperlink_address(s: str, where: int, same: bool) -> bool:
         got = r.hyperlink.address
         rid = r._r.xpath(".//a:hlinkClick")[0].get("{http://schemas.openxmlformats.org/officeDocument/2006/relationships}id")
     rels = _rels_of(part)
-    if got != s or _count(part._element) != n + added:
-        detail(globals(), "API reads %r, %d elements added", got, _count(part._element) - n)
+    if got != s or _count(part._element) != n0 + added:
+        detail(globals(), "API reads %r, %d elements added", got, _count(part._element) - n0)
         return False
     if rels.get(rid) != (s, True):
         detail(globals(), "relationship item holds %r for %s", rels.get(rid), rid)
@@ -284,11 +288,12 @@ def hyperlink_address(s: str, where: int, same: bool) -> bool:
 
 
 @cond(expect="refute", timeout=120, twin_of="hyperlink_address")
-def hyperlink_twin(s: str) -> bool:
+def hyperlink_twin(n: int, i0: int, i1: int) -> bool:
     """
-    pre: 1 <= len(s) <= MAXLEN and all(c in ALPH for c in s)
+    pre: 1 <= n <= 2 and 0 <= i0 < len(TOKENS_ALL) and 0 <= i1 < len(TOKENS_ALL) and (n > 1 or i1 == 0)
     post: _
     """
+    s = "".join([TOKENS_ALL[i0], TOKENS_ALL[i1]][:n])
     part = _slide_part()
     shapes = SlideShapes(part._element.cSld.spTree, _Owner(part))
     sh = shapes.add_shape(MSO_SHAPE.RECTANGLE, 0, 0, 10, 10)
